@@ -160,6 +160,8 @@ struct GSig {
 	UInt sig;
 	std::set<int> labels;    // pin-source classes (generator's own bookkeeping) that influence the signal marker-free
 	bool used = false;
+	explicit GSig(const UInt &s) : sig(s) {}
+	explicit GSig(BitWidth w) : sig(w) {}   // not yet driven: the first assignment closes the loop for earlier readers
 };
 
 struct Gen {
@@ -196,15 +198,58 @@ struct Gen {
 		}
 	}
 
-	GSig &add(UInt s, std::set<int> labels) {
-		pool.push_back(std::make_unique<GSig>());
-		pool.back()->sig = s;
+	GSig &add(const UInt &s, std::set<int> labels) {
+		pool.push_back(std::make_unique<GSig>(s));
 		pool.back()->labels = std::move(labels);
 		if (rng.chance(1, 3)) pool.back()->sig.setName("s" + std::to_string(nameCtr++));
 		return *pool.back();
 	}
 
-	GSig &pickSig() { auto &s = *pool[rng.below(pool.size())]; s.used = true; return s; }
+	// discipline of the design: probability (percent) that an operand / clock is picked without regard to its domain
+	unsigned wildPct = 0;
+	bool wildNow = false;   // one-fault designs: exactly one statement is built wild
+	bool wild() { return wildNow || rng.below(100) < wildPct; }
+
+	static bool hasUnk(const GSig &s) { return s.labels.count(UNK) != 0; }
+	// the one domain of a signal, -2 if constant, -3 if it already mixes domains / is unknown
+	static int domainOf(const GSig &s) {
+		if (s.labels.empty()) return -2;
+		if (s.labels.size() == 1 && *s.labels.begin() != UNK) return *s.labels.begin();
+		return -3;
+	}
+
+	GSig &pickAny() { auto &s = *pool[rng.below(pool.size())]; s.used = true; return s; }
+	// first operand: in disciplined mode avoid signals of unknown domain / already mixed ones for multi-operand nodes
+	GSig &pickSig(bool single = false) {
+		if (wild()) return pickAny();
+		for (int t = 0; t < 20; t++) {
+			auto &s = *pool[rng.below(pool.size())];
+			if (domainOf(s) == -3 && !(single && s.labels.size() == 1)) continue;
+			s.used = true; return s;
+		}
+		return newInput(pickClock());
+	}
+	// further operand that may legally meet domain `ps` (-2: anything of a single domain)
+	GSig &pickCompat(int ps) {
+		if (wild()) return pickAny();
+		for (int t = 0; t < 30; t++) {
+			auto &s = *pool[rng.below(pool.size())];
+			int d = domainOf(s);
+			if (d == -3) continue;
+			if (d == -2 || ps == -2 || d == ps) { s.used = true; return s; }
+		}
+		if (ps < 0) return newInput(pickClock());
+		return newInput(pickClockOfPs(ps));
+	}
+	GSig &newInput(size_t c) {
+		ClockScope cs(clocks[c].clk);
+		GSig &s = add(pinIn(4_b), { clocks[c].ps }); hist["pinIn"]++;
+		s.used = true;
+		return s;
+	}
+	// clock for a node consuming signals of domain `ps`
+	size_t pickClockFor(int ps) { return (ps < 0 || wild()) ? pickClock() : pickClockOfPs(ps); }
+	static int join(int a, int b) { return a == -2 ? b : a; }
 	size_t pickClock() { return rng.below(clocks.size()); }
 	// a clock with the given pin-source class, if any (possibly a derived sibling)
 	size_t pickClockOfPs(int ps) {
@@ -215,7 +260,9 @@ struct Gen {
 	}
 
 	void makeClocks() {
-		size_t nroot = 2 + rng.below(2);
+		// DesignScope keeps a default clock ("GateryDefaultClock") in scope: pins created outside any user ClockScope belong to it
+		clocks.push_back({ ClockScope::getClk(), nextPs++ });
+		size_t nroot = 1 + rng.below(3);
 		for (size_t i = 0; i < nroot; i++) {
 			ClockConfig cfg;
 			cfg.absoluteFrequency = hlim::ClockRational{ rng.chance(1, 2) ? 100'000'000u : 10'000u * (1 + rng.below(3)), 1 };
@@ -254,8 +301,12 @@ struct Gen {
 	}
 
 	void stInput() {
-		if (rng.chance(1, 12)) { // pin without clock
-			add(pinIn(4_b), { UNK }); hist["pinIn.noclock"]++;
+		if (rng.chance(1, 15)) { // pin outside any user ClockScope: default clock
+			add(pinIn(4_b), { clocks[0].ps }); hist["pinIn.defaultclock"]++;
+		} else if (rng.chance(1, 15)) { // pin whose clock slot is emptied through the hlim API: UNKNOWN domain
+			auto pin = pinIn(4_b);
+			pin.node()->setClockDomain(nullptr);
+			add(pin, { UNK }); hist["pinIn.noclock"]++;
 		} else {
 			size_t c = pickClock();
 			ClockScope cs(clocks[c].clk);
@@ -266,7 +317,7 @@ struct Gen {
 	void stConst() { add(UInt(ConstUInt(rng.below(16), 4_b)), {}); hist["const"]++; }
 
 	void stBinary() {
-		GSig &a = pickSig(); GSig &b = pickSig();
+		GSig &a = pickSig(); GSig &b = pickCompat(domainOf(a));
 		std::set<int> l = a.labels; l.insert(b.labels.begin(), b.labels.end());
 		meet({ &a.labels, &b.labels });
 		UInt r;
@@ -282,7 +333,7 @@ struct Gen {
 	}
 
 	void stUnary() {
-		GSig &a = pickSig();
+		GSig &a = pickSig(true);
 		UInt r;
 		switch (rng.below(3)) {
 			case 0: r = ~a.sig; break;
@@ -293,7 +344,7 @@ struct Gen {
 	}
 
 	void stMux() {
-		GSig &c = pickSig(); GSig &a = pickSig(); GSig &b = pickSig();
+		GSig &c = pickSig(); GSig &a = pickCompat(domainOf(c)); GSig &b = pickCompat(join(domainOf(c), domainOf(a)));
 		std::set<int> l = a.labels; l.insert(b.labels.begin(), b.labels.end()); l.insert(c.labels.begin(), c.labels.end());
 		meet({ &c.labels, &a.labels, &b.labels });
 		UInt r = a.sig;
@@ -304,7 +355,7 @@ struct Gen {
 
 	void stReg() {
 		GSig &a = pickSig();
-		size_t c = pickClock();
+		size_t c = pickClockFor(domainOf(a));
 		meet({ &a.labels }, clocks[c].ps);
 		UInt r;
 		if (rng.chance(1, 2)) { ClockScope cs(clocks[c].clk); r = rng.chance(1, 2) ? reg(a.sig) : reg(a.sig, 0); }
@@ -313,8 +364,8 @@ struct Gen {
 	}
 
 	void stRegEnable() {
-		GSig &a = pickSig(); GSig &e = pickSig();
-		size_t c = pickClock();
+		GSig &a = pickSig(); GSig &e = pickCompat(domainOf(a));
+		size_t c = pickClockFor(join(domainOf(a), domainOf(e)));
 		// Node_Register inputs: DATA, RESET_VALUE, ENABLE
 		meet({ &a.labels, &e.labels }, clocks[c].ps);
 		UInt r;
@@ -327,20 +378,22 @@ struct Gen {
 
 	void stPlaceholder() {
 		size_t c = pickClock();
-		GSig &s = add(UInt(4_b), { clocks[c].ps });
-		placeholders.push_back({ &s, c }); hist["reg.feedback"]++;
+		pool.push_back(std::make_unique<GSig>(4_b));
+		pool.back()->labels = { clocks[c].ps };
+		placeholders.push_back({ pool.back().get(), c }); hist["reg.feedback"]++;
 	}
 
 	// move a signal to another clock domain: marked correctly / marked wrongly / unmarked
 	void stCross() {
 		GSig &a = pickSig();
 		size_t dst = pickClock();
-		unsigned how = (unsigned)rng.below(100);
-		if (how < 50 && !a.labels.empty() && *a.labels.begin() != UNK) {
+		bool w = wild();
+		unsigned how = w ? 50 + (unsigned)rng.below(50) : 0;
+		if (!w) {
 			// correct marker: declared source = any clock sharing the pin with the signal's domain, declared destination = a clock sharing the pin with the consumer
-			size_t src = pickClockOfPs(*a.labels.begin());
+			size_t src = domainOf(a) >= 0 ? pickClockOfPs(domainOf(a)) : pickClock();
 			size_t dstDecl = pickClockOfPs(clocks[dst].ps);
-			meet({ &a.labels }, clocks[src].ps); // (a signal that already mixes domains stays a crossing)
+			meet({ &a.labels }, clocks[src].ps);
 			if (rng.chance(1, 4)) {
 				scl::SynchronizeParams p; p.outStages = 2; p.inStage = rng.chance(1, 2);
 				UInt r = scl::synchronize(a.sig, clocks[src].clk, clocks[dstDecl].clk, p);
@@ -378,11 +431,14 @@ struct Gen {
 			if (memNoConflicts) mem->noConflicts();
 			hist[memNoConflicts ? "mem.noconflicts" : "mem"]++;
 		}
-		size_t c = pickClock();
-		GSig &addr = pickSig();
 		bool order = !memNoConflicts && memHasPort;
 		static const std::set<int> none;
+		// the chain of orderAfter dependencies carries the domains of all earlier ports' inputs
+		int od = -2;
+		if (order) { if (memOrderLabels.size() == 1 && *memOrderLabels.begin() != UNK) od = *memOrderLabels.begin(); else if (!memOrderLabels.empty()) od = -3; }
+		GSig &addr = (od >= 0) ? pickCompat(od) : pickSig();
 		if (rng.chance(1, 2)) { // read port: address, orderAfter
+			size_t c = pickClockFor(join(domainOf(addr), od));
 			meet({ &addr.labels, order ? &memOrderLabels : &none }, clocks[c].ps);
 			std::set<int> l = addr.labels; if (order) l.insert(memOrderLabels.begin(), memOrderLabels.end());
 			ClockScope cs(clocks[c].clk);
@@ -390,7 +446,8 @@ struct Gen {
 			add(r, l);
 			memOrderLabels = l; hist["mem.read"]++;
 		} else { // write port: address, wrData, orderAfter
-			GSig &data = pickSig();
+			GSig &data = pickCompat(join(domainOf(addr), od));
+			size_t c = pickClockFor(join(join(domainOf(addr), domainOf(data)), od));
 			meet({ &addr.labels, &data.labels, order ? &memOrderLabels : &none }, clocks[c].ps);
 			std::set<int> l = addr.labels; l.insert(data.labels.begin(), data.labels.end()); if (order) l.insert(memOrderLabels.begin(), memOrderLabels.end());
 			ClockScope cs(clocks[c].clk);
@@ -402,9 +459,13 @@ struct Gen {
 
 	void stPinOut(GSig &a) {
 		a.used = true;
-		if (rng.chance(1, 10)) { pinOut(a.sig).setName("o" + std::to_string(nameCtr++)); hist["pinOut.noclock"]++; return; }
-		// usually in the signal's own domain
-		size_t c = (!a.labels.empty() && *a.labels.begin() != UNK && rng.chance(9, 10)) ? pickClockOfPs(*a.labels.begin()) : pickClock();
+		if (hasUnk(a) && !wild()) { // the only legal consumer of an unknown-domain signal: a pin without clock
+			auto pin = pinOut(a.sig);
+			pin.setName("o" + std::to_string(nameCtr++));
+			pin.node()->setClockDomain(nullptr);
+			hist["pinOut.noclock"]++; return;
+		}
+		size_t c = pickClockFor(domainOf(a));
 		meet({ &a.labels }, clocks[c].ps);
 		ClockScope cs(clocks[c].clk);
 		pinOut(a.sig).setName("o" + std::to_string(nameCtr++)); hist["pinOut"]++;
@@ -424,14 +485,23 @@ struct Gen {
 	void build(size_t nst, bool multi) {
 		makeClocks();
 		if (!multi) { // single-domain design: must always be accepted
-			int ps0 = clocks[0].ps;
+			int ps0 = clocks[1].ps;
 			std::vector<GClock> keep;
 			for (auto &c : clocks) if (c.ps == ps0) keep.push_back(c);
 			clocks = keep;
 		}
+		// discipline: clean / exactly one undisciplined statement / a few / many
+		unsigned mode = (unsigned)rng.below(100);
+		size_t faultAt = ~size_t(0);
+		if (mode < 35) { wildPct = 0; hist["mode.clean"]++; }
+		else if (mode < 65) { wildPct = 0; faultAt = rng.below(nst ? nst : 1); hist["mode.onefault"]++; }
+		else if (mode < 85) { wildPct = 8; hist["mode.few"]++; }
+		else { wildPct = 50; hist["mode.wild"]++; }
 		for (size_t i = 0; i < 3; i++) stInput();
 		for (size_t i = 0; i < nst; i++) {
+			wildNow = (i == faultAt);
 			unsigned k = (unsigned)rng.below(100);
+			if (wildNow && k >= 86) k = 71 + (unsigned)rng.below(15); // the one fault is a crossing attempt
 			if (k < 10) stInput();
 			else if (k < 15) stConst();
 			else if (k < 33) stBinary();
@@ -442,12 +512,13 @@ struct Gen {
 			else if (k < 71) stPlaceholder();
 			else if (k < 86) stCross();
 			else if (k < 91) stMem();
-			else if (k < 95) stPinOut(pickSig());
+			else if (k < 95) stPinOut(pickSig(true));
 			else stScope();
 		}
+		wildNow = false;
 		// close the register feedback loops
 		for (auto &ph : placeholders) {
-			GSig &a = pickSig();
+			GSig &a = pickCompat(clocks[ph.clk].ps);
 			meet({ &a.labels }, clocks[ph.clk].ps);
 			ClockScope cs(clocks[ph.clk].clk);
 			ph.s->sig = reg(a.sig, 0);
